@@ -86,13 +86,25 @@ class IOHub:
         self.enabled = True
 
     def classify(self, path):
+        if isinstance(path, int):
+            # open(fd, ...): the descriptor's file (e.g. one made by tempfile.mkstemp)
+            try:
+                path = _os.readlink(f"/proc/self/fd/{path}")
+            except OSError:
+                return "other"
         try:
             p = _os.fspath(path)
         except TypeError:
             return "other"
+        if isinstance(p, bytes):
+            p = _os.fsdecode(p)
         if self.primary is not None and _os.path.abspath(p) == _os.path.abspath(self.primary):
             return "primary"
         if p in self.temp_names:
+            return "temp"
+        if self.primary is not None and _os.path.dirname(_os.path.abspath(p)) == _os.path.dirname(_os.path.abspath(self.primary)):
+            # any other file next to the database is auxiliary storage of the operation, however it was created
+            self.temp_names.add(p)
             return "temp"
         return "other"
 
@@ -179,6 +191,39 @@ class FileProxy:
 
     def __getattr__(self, name):
         return getattr(self._f, name)
+
+
+def wrap_open_handles(hub, storage):
+    """The file objects an already open storage holds predate the proxies: rewrap them.  They are found by what they
+    are (open file objects among the storage's attributes), not by attribute name.  Returns an undo list."""
+    import io
+
+    undo = []
+    try:
+        attrs = dict(vars(storage))
+    except TypeError:
+        attrs = {}
+    for name, val in attrs.items():
+        if isinstance(val, FileProxy):
+            continue
+        if isinstance(val, io.IOBase) and not val.closed:
+            target = hub.classify(getattr(val, "name", None)) if getattr(val, "name", None) is not None else "other"
+            if target == "other":
+                continue
+            setattr(storage, name, FileProxy(hub, val, target))
+            undo.append(name)
+    return undo
+
+
+def unwrap_handles(storage, undo=None):
+    """Put the raw file objects back (whatever attribute they sit in now)."""
+    try:
+        attrs = dict(vars(storage))
+    except TypeError:
+        return
+    for name, val in attrs.items():
+        if isinstance(val, FileProxy):
+            setattr(storage, name, val._f)
 
 
 class _OsProxy:
